@@ -10,17 +10,17 @@ inductive State where
 
 /-- `state.String()` as used by `mangle` -/
 def State.str : State → String
-  | .text => "stateText" | .specialBody => "stateSpecialElementBody" | .tag => "stateTag"
-  | .attrName => "stateAttrName" | .afterName => "stateAfterName" | .beforeValue => "stateBeforeValue"
-  | .htmlCmt => "stateHTMLCmt" | .attr => "stateAttr" | .error => "stateError"
+  | .text => "StateText" | .specialBody => "StateSpecialElementBody" | .tag => "StateTag"
+  | .attrName => "StateAttrName" | .afterName => "StateAfterName" | .beforeValue => "StateBeforeValue"
+  | .htmlCmt => "StateHTMLCmt" | .attr => "StateAttr" | .error => "StateError"
 
 inductive Delim where
   | none | dq | sq | spaceOrTagEnd
   deriving DecidableEq, Repr, Inhabited
 
 def Delim.str : Delim → String
-  | .none => "delimNone" | .dq => "delimDoubleQuote" | .sq => "delimSingleQuote"
-  | .spaceOrTagEnd => "delimSpaceOrTagEnd"
+  | .none => "DelimNone" | .dq => "DelimDoubleQuote" | .sq => "DelimSingleQuote"
+  | .spaceOrTagEnd => "DelimSpaceOrTagEnd"
 
 /-- template.ErrorCode (class of an analysis error; message text is never modelled) -/
 inductive ErrCode where
